@@ -145,6 +145,24 @@ Qed.
 Theorem parse_encode l : parse_query (values_encode l) = sort_pairs l.
 Proof. apply parse_join. Qed.
 
+Lemma seg_ok_enc_pair p : seg_ok (enc_pair p) = true.
+Proof. unfold seg_ok. rewrite parse_segment_enc_pair. apply orb_true_r. Qed.
+
+Lemma query_ok_join (L : pairs) : query_ok (join_amp (map enc_pair L)) = true.
+Proof.
+  unfold query_ok. induction L as [|p L IH]; [reflexivity|].
+  destruct L as [|p' L].
+  - cbn [map join_amp]. rewrite split_on_nosep by apply enc_pair_no_amp.
+    cbn [forallb]. now rewrite seg_ok_enc_pair.
+  - cbn [map]. rewrite join_amp_cons by discriminate.
+    rewrite split_on_app_sep by apply enc_pair_no_amp.
+    cbn [forallb]. rewrite seg_ok_enc_pair. exact IH.
+Qed.
+
+(* the standard encoding of any parameter list is parsed without an error *)
+Theorem query_ok_encode l : query_ok (values_encode l) = true.
+Proof. apply query_ok_join. Qed.
+
 Lemma join_amp_esafe (L : pairs) : all_chars esafe (join_amp (map enc_pair L)) = true.
 Proof.
   induction L as [|p L IH]; [reflexivity|]. destruct L as [|p' L].
